@@ -552,6 +552,14 @@ def _equalsDefault(component, defaultValue):
         return False
 
 
+def _isValueOf(asn1Type, component):
+    # whether `component` is a value of `asn1Type` itself (the captured
+    # octets of an open type field), not of another type that happens
+    # to carry the same tags
+    return (getattr(component, 'typeId', None) == asn1Type.typeId and
+            asn1Type.isSameTypeWith(component))
+
+
 class SequenceEncoder(AbstractItemEncoder):
     omitEmptyOptionals = False
 
@@ -608,7 +616,7 @@ class SequenceEncoder(AbstractItemEncoder):
                     else:
                         chunk = encodeFun(component, asn1Spec, **options)
 
-                        if wrapType.isSameTypeWith(component):
+                        if _isValueOf(wrapType, component):
                             substrate += chunk
 
                         else:
@@ -703,7 +711,7 @@ class SequenceOfEncoder(AbstractItemEncoder):
             chunk = encodeFun(component, asn1Spec, **options)
 
             if (wrapType is not None and
-                    not wrapType.isSameTypeWith(component)):
+                    not _isValueOf(wrapType, component)):
                 # wrap encoded value with wrapper container (e.g. ANY)
                 chunk = encodeFun(chunk, wrapType, **options)
 
